@@ -1,4 +1,4 @@
-HOOK_COMMITS = ["246a048", "980d1ce"]
+HOOK_COMMITS = ["246a048", "980d1ce", "4bc6d09", "930c4c9"]
 
 WIP = "check not built yet in this round (work in progress, see DESIGN.md section 3)"
 NOT_APPLICABLE = {("C%02d" % i): WIP for i in range(1, 20)}
@@ -23,7 +23,7 @@ CLAIMS = {
         technique="property-based testing (rapid) against an exact rational reference model; pipeline differential on written weights",
     ),
     "C05": dict(
-        text="After every step of generated histories (shard counts 0/1/3/5, full and partial resyncs, emptied shards, reverted changes) the content of every file HAProxy would load is compared in both directions with the controller's current model: backends and servers exactly once, host rules, crt-list lines and userlists neither missing nor stale.",
+        text="After every step of generated histories (shard counts 0/1/3/5, full and partial resyncs, emptied shards, reverted changes) the content of every file HAProxy would load is compared in both directions with the controller's current model: backends and servers exactly once, host rules, crt-list lines and userlists neither missing nor stale. A quarter of the batches meet a transient write or reload failure and are retried; the comparison runs after every update that succeeded. Two defects found this way were repaired in /repo.",
         design_ref="DESIGN.md section 3, C05",
         note="Files-versus-model bookkeeping only (converter tracking gaps are C01's business); the model is read through the exported accessors of haproxy.Config; parsing by harness/hapcfg.",
         technique="stateful property-based testing (rapid): invariant files == model after every step",
@@ -41,7 +41,7 @@ CLAIMS = {
         technique="stateful property-based testing (rapid): structural invariant (reference integrity linter) over every written configuration",
     ),
     "C18": dict(
-        text="Generated worlds with every kind of auth-url / oauth declaration (usable and unusable) are synced by the real controller and every request that the documented routing sends to a protected path is evaluated through the written http-request rules with the auth response unset: it must end in deny/redirect, preceded by the interception when the declaration is usable. Two known findings on frontend placement are matched by precise signatures; anything else is reported.",
+        text="Generated worlds with every kind of auth-url / oauth declaration (usable and unusable) are synced by the real controller and every request that the documented routing sends to a protected path is evaluated through the written http-request rules with the auth response unset: it must end in deny/redirect, preceded by the interception when the declaration is usable. 40% of the cases continue with a short history (the auth-proxy port bookkeeping is carried from sync to sync) and are evaluated after every batch. Two known findings on frontend placement are matched by precise signatures; anything else is reported.",
         design_ref="DESIGN.md section 3, C18",
         note="Trusts harness/hapcfg's rule evaluator and the reference routing model; Lua's auth-request behaviour is reduced to 'txn.auth_response_successful is unset for an unauthenticated client'.",
         technique="property-based testing (rapid): oracle = evaluation of the written access rules for requests routed to protected paths (fail-closed), two-sided",
@@ -59,9 +59,9 @@ CLAIMS = {
         technique="stateful property-based testing (rapid) against a reference model of certificate selection, observed on a simulated HAProxy",
     ),
     "C09": dict(
-        text="Metamorphic pairs of fresh syncs that differ only in a foreign-namespace object (present/absent, existing/dangling name) must produce identical behavioural normal forms whenever the reference's kind is denied, over every reference site, form, placement and allow/deny setting; allowed settings act as non-vacuity controls. Three bypasses found this way were repaired in /repo.",
+        text="Metamorphic pairs of runs (a fresh sync, or the same short history of global ConfigMap changes and a partial re-parse) that differ only in a foreign-namespace object (present/absent, existing/dangling name) must produce identical behavioural normal forms whenever the reference's kind is denied, over every reference site, form, placement and allow/deny setting; allowed settings act as non-vacuity controls. Three bypasses found this way were repaired in /repo.",
         design_ref="DESIGN.md section 3, C09",
-        note="The finite case space (5 sites x forms x placements x 7^4 settings x CLI x relation x b-uses) is sampled, not enumerated; normal form by harness/hapcfg; reads of a foreign secret are observed through the PEM file the facade writes when it reads one.",
+        note="The finite case space (7 sites x forms x placements x 7^4 settings x CLI x relation x b-uses) is sampled, not enumerated; normal form by harness/hapcfg; reads of a foreign secret are observed through the PEM file the facade writes when it reads one.",
         technique="property-based testing (rapid): metamorphic relation between two worlds differing only in foreign-namespace objects",
     ),
     "C10": dict(
@@ -89,7 +89,7 @@ CLAIMS = {
         technique="stateful property-based testing (rapid): invariant on the reload counter of a simulated HAProxy + slot-layout invariant after reloads",
     ),
     "C12": dict(
-        text="Faults are injected at the observable boundaries of an update (each file written, each runtime command, the reload result) into generated histories; the real Reconcile is then retried with an empty batch, as its RequeueAfter does, and the result must converge to a fresh controller's files and to a running HAProxy equal to the files. The defect this exposed (commit on every return path) was repaired in /repo.",
+        text="Faults are injected at the observable boundaries of an update (each file written, each runtime command, the reload result) into generated histories; the real Reconcile is then retried with an empty batch, as its RequeueAfter does, and the result must converge to a fresh controller's files, to files that hold exactly the model (nothing stale in a shard or map HAProxy loads) and to a running HAProxy equal to the files. The defects this exposed (commit on every return path; shard files skipped by the retry) were repaired in /repo.",
         design_ref="DESIGN.md section 3, C12",
         note="Failure points are sampled (file chosen by index among the files written so far and the fixed names), not enumerated per history; simhap and hapcfg are the trusted base; uses the real IngressReconciler.Reconcile and Services.ReconcileIngress through verif hooks.",
         technique="stateful property-based testing (rapid) with fault injection: differential against a fresh controller after the retry",
